@@ -302,8 +302,15 @@ def _refuted(kind, facts, st, x, n):
         return keylist_refuted(facts, x)
     if kind == "envelope":
         sigs, sgn = Sub(x, C("signatures")), Sub(x, C("signed"))
+        from sa.walker import JSON_TYPES
+
         for f in facts:
-            if f[0] == "nottype" and f[1] in (x, sigs, sgn):
+            # (the failed type test must be the grammar's own: "not a dict" for the envelope and its
+            # signature map, "none of the JSON types" for the payload - a narrower test, e.g. one
+            # that leaves out bool, turns valid envelopes away)
+            if f[0] == "nottype" and f[1] in (x, sigs) and "dict" in f[2]:
+                return True
+            if f[0] == "nottype" and f[1] == sgn and JSON_TYPES <= f[2]:
                 return True
             if f[0] in ("notkeys", "notkeysin") and f[1] == x:
                 return True
